@@ -102,12 +102,12 @@ type c13Val struct{ g, power int64 }
 type c13Upd struct{ pos, g, power int64 }
 
 type c13World struct {
-	ih      int64 // GenesisDoc.InitialHeight
+	ih      int64             // GenesisDoc.InitialHeight
 	privs   []ed25519.PrivKey // by key
 	addrs   []types.Address   // by key
 	powers0 []int64           // genesis powers of keys 0..
 	upds    []c13Upd
-	sets    [][]c13Val // sets[j], j = 1..L+1: the validator set of the j-th height, in the order of ValidatorSet.Validators
+	sets    [][]c13Val                       // sets[j], j = 1..L+1: the validator set of the j-th height, in the order of ValidatorSet.Validators
 	abciUpd map[int64][]abci.ValidatorUpdate // by height
 	genDoc  *types.GenesisDoc
 	blocks  []*types.Block  // 1..L (index j: height ih+j-1)
